@@ -455,7 +455,13 @@ def _make_to_xml(pc, keys, sts, where):
             if any(x is True for x in claims):
                 claim = True
             elif undecided:
-                c.undecided("post.lexical_in_schema_type", "; ".join(undecided))
+                # the schema pattern is outside the regex subset; every pattern in these schemas matches only
+                # non-empty strings, so "non-empty" is a necessary condition: refuting it refutes the clause
+                zs = ss.z3()
+                if zs is not None:
+                    c.ensures("post.lexical_in_schema_type", z3.Length(zs) > 0, overapprox=True, result=repr(s), why="; ".join(undecided))
+                else:
+                    c.undecided("post.lexical_in_schema_type", "; ".join(undecided))
                 return
             else:
                 claims = [x for x in claims if x is not False]
